@@ -92,8 +92,8 @@ PROPS["C15"] = dict(
 )
 
 PROPS["C03"] = dict(
-    modules=["Sth.Props.C01", "Sth.Props.C08", "Sth.Props.C03", "Sth.Props.C03Close"],
-    theorems=list(CORE_RL) + ['Sth.C03_flush_crash_recovers', 'Sth.C03_flush_crash_against_map', 'Sth.C03_removed_flushed_stays_absent', 'Sth.C03_flushed_unchanged_survives', 'Sth.C03_lastDurable_spec', 'Sth.C03_image_zero', 'Sth.C03_image_full', 'Sth.C03_recovered_store_keeps_working_partial', 'Sth.C03_close_crash_recovers', 'Sth.C03_close_crash_against_map', 'Sth.C03_close_recovered_store_keeps_working_partial', 'Sth.C03_close_images_recover', 'Sth.C03_snapshot_needs_complete_index'],
+    modules=["Sth.Props.C01", "Sth.Props.C08", "Sth.Props.C03", "Sth.Props.C03Close", "Sth.Props.C03Gc"],
+    theorems=list(CORE_RL) + ['Sth.C03_flush_crash_recovers', 'Sth.C03_flush_crash_against_map', 'Sth.C03_removed_flushed_stays_absent', 'Sth.C03_flushed_unchanged_survives', 'Sth.C03_lastDurable_spec', 'Sth.C03_image_zero', 'Sth.C03_image_full', 'Sth.C03_recovered_store_keeps_working_partial', 'Sth.C03_close_crash_recovers', 'Sth.C03_close_crash_against_map', 'Sth.C03_close_recovered_store_keeps_working_partial', 'Sth.C03_close_images_recover', 'Sth.C03_snapshot_needs_complete_index', 'Sth.C03_igc_interrupted_crash_recovers', 'Sth.C03_pgc_interrupted_crash_recovers', 'Sth.C03_pgc_crash_vs_old_disk', 'Sth.C03_d11_pgc_dirty_index_pool_loses_durable_value'],
     runs=[dict(engine="crash", quick=48, thorough=2000, nontrivial=["torn", "at:index", "at:primary", "at:freelist", "at:store", "flush-image-interior"])],
     shrink_budget=0,   # the workload is the context of the crash oracle (baseline, acknowledged since): it is kept whole
     crash_lines=True,
@@ -163,8 +163,8 @@ PROPS["C12"] = dict(
 )
 
 PROPS["C13"] = dict(
-    modules=["Sth.Props.C01", "Sth.Props.C08", "Sth.Props.C13"],
-    theorems=list(CORE_RL) + ['Sth.C13_step', 'Sth.C13_current_is_current', 'Sth.C13_current_prefix', 'Sth.C13_step_overwrite', 'Sth.C13_step_remove', 'Sth.C13_step_new_key', 'Sth.C13_step_immutable', 'Sth.C13_step_same_value', 'Sth.C13_step_malformed', 'Sth.C13_step_remove_absent', 'Sth.C13_step_other', 'Sth.C13_recorded_not_current', 'Sth.C13_current_not_recorded', 'Sth.C13_exactly_once', 'Sth.C13_run', 'Sth.C13_file_well_formed'],
+    modules=["Sth.Props.C01", "Sth.Props.C08", "Sth.Props.C13", "Sth.Props.C13G"],
+    theorems=list(CORE_RL) + ['Sth.C13_step', 'Sth.C13_current_is_current', 'Sth.C13_current_prefix', 'Sth.C13_step_overwrite', 'Sth.C13_step_remove', 'Sth.C13_step_new_key', 'Sth.C13_step_immutable', 'Sth.C13_step_same_value', 'Sth.C13_step_malformed', 'Sth.C13_step_remove_absent', 'Sth.C13_step_other', 'Sth.C13_recorded_not_current', 'Sth.C13_current_not_recorded', 'Sth.C13_exactly_once', 'Sth.C13_run', 'Sth.C13_file_well_formed', 'Sth.C13_gc_nothing_current_recorded', 'Sth.C13_gc_nothing_current_recorded_cid', 'Sth.C13_gc_consumes', 'Sth.C13_gc_pool_after'],
     runs=[dict(engine="seq", quick=300, thorough=10000, extra=["-profile", "c13"], nontrivial=["freelist-nonempty", "pgc-relocated"]),
           dict(engine="sched", quick=120, thorough=10000, extra=["-profile", "c13"], nontrivial=["freelist-nonempty"])],
     rule="C04-style traces (small files, overwrites, removals, flushes, reopen, GC cycles with relocation and deadlines); after every "
@@ -203,7 +203,7 @@ PROPS["C11"] = dict(
 
 PROPS["C07"] = dict(
     modules=["Sth.Props.C01", "Sth.Props.C08", "Sth.Props.C07", "Sth.Props.C07G"],
-    theorems=list(CORE_RL) + ['Sth.C07_fsck_clean', 'Sth.C07_disk_consistent', 'Sth.C07_recovered_table', 'Sth.C07_recovered_table_reopen', 'Sth.C07_fsck_clean_reopen', 'Sth.C07_recovered_table_after_close', 'Sth.C07_bucket_clauses', 'Sth.C07_bucket_points_at_own_record_list', 'Sth.C07_entries_sorted_prefix_free_distinct', 'Sth.C07_entry_names_live_matching_primary_record', 'Sth.C07_freelist_disjoint_from_live', 'Sth.C07_recorded_never_current', 'Sth.C07_example_clean_everywhere', 'Sth.C07_negative_deleted_record', 'Sth.C07_negative_wrong_bucket', 'Sth.C07_negative_stale_record_list', 'Sth.C07_negative_torn_record_list', 'Sth.C07_negative_live_on_freelist', 'Sth.C07_negative_recovered', 'Sth.C07_fsck_clean_igc', 'Sth.C07_disk_consistent_igc', 'Sth.C07_bucket_clauses_igc', 'Sth.C07_recovered_table_igc', 'Sth.C07_reopen_igc', 'Sth.C07_after_igc'],
+    theorems=list(CORE_RL) + ['Sth.C07_fsck_clean', 'Sth.C07_disk_consistent', 'Sth.C07_recovered_table', 'Sth.C07_recovered_table_reopen', 'Sth.C07_fsck_clean_reopen', 'Sth.C07_recovered_table_after_close', 'Sth.C07_bucket_clauses', 'Sth.C07_bucket_points_at_own_record_list', 'Sth.C07_entries_sorted_prefix_free_distinct', 'Sth.C07_entry_names_live_matching_primary_record', 'Sth.C07_freelist_disjoint_from_live', 'Sth.C07_recorded_never_current', 'Sth.C07_example_clean_everywhere', 'Sth.C07_negative_deleted_record', 'Sth.C07_negative_wrong_bucket', 'Sth.C07_negative_stale_record_list', 'Sth.C07_negative_torn_record_list', 'Sth.C07_negative_live_on_freelist', 'Sth.C07_negative_recovered', 'Sth.C07_fsck_clean_igc', 'Sth.C07_disk_consistent_igc', 'Sth.C07_bucket_clauses_igc', 'Sth.C07_recovered_table_igc', 'Sth.C07_reopen_igc', 'Sth.C07_after_igc', 'Sth.C07_fsck_clean_gc_partial', 'Sth.C07_disk_consistent_gc_partial', 'Sth.C07_pgcFromClean_of_afterFlush', 'Sth.C07_fsck_clean_gc_afterFlush', 'Sth.C07_fsck_clean_gc_cid', 'Sth.C07_primaryGC_keeps_consistency', 'Sth.C07_d11_witness', 'Sth.C07_d11_relocation_witness'],
     runs=[dict(engine="seq", quick=250, thorough=10000, extra=["-profile", "c07"], nontrivial=["fsck-2-buckets"])],
     rule="C04-style traces (flushes, reopen, both GCs, small files); after every flush, GC cycle and reopen the FULL bytes of every file "
          "and the live bucket table of the real store are handed to the Lean fsck (Sth/Model/Fsck.lean), which checks every clause of the "
@@ -251,8 +251,9 @@ PROPS["C09"] = dict(
 )
 
 PROPS["C10"] = dict(
-    modules=["Sth.Props.C10", "Sth.Props.C01", "Sth.Props.C08"],
-    theorems=["Sth.C10_chunk_concat", "Sth.C10_chunk_shape", "Sth.C10_remap_correct", "Sth.C10_remap_reject", "Sth.C10_remap_total"] + list(CORE_RL),
+    modules=["Sth.Props.C10", "Sth.Props.C10b", "Sth.Props.C01", "Sth.Props.C08"],
+    theorems=["Sth.C10_chunk_concat", "Sth.C10_chunk_shape", "Sth.C10_remap_correct", "Sth.C10_remap_reject", "Sth.C10_remap_total",
+              "Sth.C10_upgrade_contents", "Sth.C10_upgrade_reads", "Sth.C10_upgrade_records_whole", "Sth.C10_upgrade_fsck"] + list(CORE_RL),
     runs=[dict(engine="seq", quick=250, thorough=5000, extra=["-profile", "c10"], nontrivial=["multi-chunk", "legacy-freelist", "legacy-bad-offset", "upgrade-bytes-agree"]),
           dict(engine="crash", quick=16, thorough=500, extra=["-profile", "c10"], nontrivial=["at:upgrade", "at:remap"])],
     shrink_budget=0,
